@@ -49,7 +49,10 @@ def openAxes (s : Suite) (c : Case) : List String :=
 def specName (join : List String → String) (s : Suite) (c : Case) (t : Test) : String :=
   join ([s.name] ++ openAxes s c ++ [t.name])
 
-/-- what the request of the permutation carries -/
+/-- what the request of the permutation carries: the case's version, protocol, codec, compression;
+the TLS markers (server-certificate placeholder iff the case uses TLS, client-credential
+placeholders iff it also uses client certificates); service and method; the receive limit the
+runner always sets -/
 def specPerm (join : List String → String) (s : Suite) (c : Case) (t : Test) : Perm :=
   { fullName := specName join s c t, simpleName := t.name,
     v := c.v, p := c.p, c := c.c, z := c.z, st := t.st,
@@ -57,6 +60,9 @@ def specPerm (join : List String → String) (s : Suite) (c : Case) (t : Test) :
     service := if t.service = "" ∧ t.method = "" then serviceName else t.service,
     method := if t.service = "" ∧ t.method = "" then defaultMethod t.st else t.method,
     rawRequest := t.rawRequest, rawResponse := t.rawResponse,
+    certText := if c.tls then placeholder else "",
+    credsText := if c.tls ∧ c.certs then placeholder ++ "|" ++ placeholder else "",
+    recvLimit := clientReceiveLimit,
     suite := s.name, case := c, test := t }
 
 /-- all permutations, by comprehension over suites × given cases × tests -/
